@@ -78,6 +78,28 @@ def cases(tier, seed):
     return out
 
 
+def spans_of(subresults):
+    # sub-results are tree nodes (LR with build_tree) or GSS parents (GLR); plain action results carry no span
+    return tuple((getattr(x, "start_position", None), getattr(x, "end_position", None)) if not isinstance(x, (str, list, tuple)) else (None, None)
+                 for x in subresults)
+
+
+def node_keys(root, dyn_prods):
+    """(prod_id, children spans) of every node of a dynamic production in a parglare tree (LR node or GLR Tree)."""
+    out = []
+
+    def walk(nd):
+        if nd.is_term():
+            return
+        if nd.production.prod_id in dyn_prods:
+            out.append((nd.production.prod_id, tuple((c.start_position, c.end_position) for c in nd)))
+        for c in nd:
+            walk(c)
+
+    walk(root)
+    return out
+
+
 def build(params, symbolic):
     if params["kind"] == "prec":
         return build_prec(params, symbolic)
@@ -87,12 +109,16 @@ def build(params, symbolic):
     calls = []
     rej = int(filt[-1]) if filt.startswith("reject") else None
 
+    approved = []
+
     def the_filter(context, from_state, to_state, action, production, subresults):
         calls.append((action, to_state, production, subresults, context))
         if action is None:
             return None
         if rej is not None and action is REDUCE and production.prod_id == rej + 1:
             return False
+        if action is REDUCE:
+            approved.append((production.prod_id, spans_of(subresults)))
         return True
 
     Cls = Parser if mode == "lr" else GLRParser
@@ -119,6 +145,7 @@ def build(params, symbolic):
     def h(w: str):
         n = length_of(w, N)
         del calls[:]
+        del approved[:]
         res, exc = None, None
         try:
             res = parser.parse(w)
@@ -156,11 +183,17 @@ def build(params, symbolic):
         # result returned
         if mode == "lr":
             trees = [pgx.conv(res)]
+            raw = [res]
         else:
             try:
-                trees = [pgx.conv(res[i]) for i in range(min(len(res), 20))]
+                raw = [res[i] for i in range(min(len(res), 20))]
+                trees = [pgx.conv(t) for t in raw]
             except LoopError:
-                trees = []
+                trees, raw = [], []
+        for t in raw:
+            for key in node_keys(t, dyn_prods):
+                if key not in approved:
+                    return "node of dynamic production %d over children %r is in the result but no filter call approved that reduction" % key
         used = set()
         for t in trees:
             prods_in(t, used)
@@ -198,8 +231,15 @@ def build_prec(params, symbolic):
     k, lefts, maxops = params["k"], params["left"], params["maxops"]
     text = grammar_text(k, [1] * k, [1] * k)
     tighter = [[False] * k for _ in range(k)]
+    approved = []
 
     def filt(context, from_state, to_state, action, production, subresults):
+        r = filt0(context, from_state, to_state, action, production, subresults)
+        if action is REDUCE and r:
+            approved.append((production.prod_id, spans_of(subresults)))
+        return r
+
+    def filt0(context, from_state, to_state, action, production, subresults):
         if action is None:
             return None
         op = context.token.symbol if action is SHIFT else context.token_ahead.symbol
@@ -216,7 +256,9 @@ def build_prec(params, symbolic):
         return tighter[i][j]
 
     lr = Parser(Grammar.from_string(text), prefer_shifts=False, prefer_shifts_over_empty=False, dynamic_filter=filt)
+    lrt = Parser(Grammar.from_string(text), prefer_shifts=False, prefer_shifts_over_empty=False, dynamic_filter=filt, build_tree=True)
     glr = GLRParser(Grammar.from_string(text), dynamic_filter=filt)
+    dyn_all = set(range(1, k + 1))
     exprs = expressions(k, maxops)
     exprs = [e for e in exprs if "(" not in e]
     stats = {}
@@ -236,9 +278,18 @@ def build_prec(params, symbolic):
                 got = lr.parse(text2)
                 if got != want:
                     return "LR with the precedence filter: %r -> %r, reference %r" % (text2, got, want)
+                del approved[:]
+                tr = lrt.parse(text2)
+                for key in node_keys(tr, dyn_all):
+                    if key not in approved:
+                        return "LR, %r: node of production %d over %r is in the tree but no filter call approved that reduction" % ((text2,) + key)
+                del approved[:]
                 f = glr.parse(text2)
                 if len(f) != 1:
                     return "GLR with the precedence filter: %d trees for %r" % (len(f), text2)
+                for key in node_keys(f[0], dyn_all):
+                    if key not in approved:
+                        return "GLR, %r: node of production %d over %r is in the tree but no filter call approved that reduction" % ((text2,) + key)
                 got2 = glr.call_actions(f[0])
                 if got2 != want:
                     return "GLR with the precedence filter: %r -> %r, reference %r" % (text2, got2, want)
